@@ -65,6 +65,7 @@ class Frame:
         self.env = {}
         self.ret_join = None
         self.ret_vals = []
+        self.ret_nodes = []
         self.cleanups = []  # (kind, payload, exc_depth, counts_snapshot)
         self.loops = []  # (head_join, break_join, cleanup_depth)
         self.key = None
@@ -83,6 +84,7 @@ class Builder(ExprMixin):
         self.unresolved = []
         self.resolved_calls = 0
         self.recursion_cuts = 0
+        self.ret_origin = {}
         self.init_counts()
 
     # ------------------------------------------------------------ helpers
@@ -308,14 +310,20 @@ class Builder(ExprMixin):
             preds = self.node("enter", preds, func=func.qualname, fname=func.name, recv=recv, args=argmap)
             out = self.block(func.node.body, preds)
             # falling off the end
-            self.link_all(out, frame.ret_join)
             if out:
+                self.cur_stmt = func.node
                 frame.ret_vals.append(Val("const", None))
+                out = self.node("ret", out, value=Val("const", None), implicit=True)
+                frame.ret_nodes.append((next(iter(out)), Val("const", None)))
+            self.link_all(out, frame.ret_join)
             self.cur_stmt = func.node
             has_ret = bool(self.g.pred[frame.ret_join])
             rv = self.merge_vals(frame.ret_vals) if frame.ret_vals else Val("const", None)
             if has_ret:
                 outp = self.node("leave", {frame.ret_join}, func=func.qualname, fname=func.name, recv=recv, ret=rv)
+                if rv.kind == "phi" and len(frame.ret_nodes) >= 2 and not entry:
+                    # remember which return statement produced which alternative (for correlated branches)
+                    self.ret_origin[rv] = (next(iter(outp)), list(frame.ret_nodes))
             else:
                 outp = set()
             return outp, rv
@@ -434,6 +442,8 @@ class Builder(ExprMixin):
         self.cur_stmt = st
         fr.ret_vals.append(v)
         preds = self.node("ret", preds, value=v)
+        for p_ in preds:
+            fr.ret_nodes.append((p_, v))
         self.link_all(preds, fr.ret_join)
         return set()
 
@@ -457,6 +467,10 @@ class Builder(ExprMixin):
         if not preds:
             return set()
         br = self.node("branch", preds, cond=c, test=ast.unparse(st.test), pruned=t)
+        corr = self.correlate(c, preds) if t is None else None
+        if corr is not None:
+            corr_leave, corr = corr
+            self.g.nodes[next(iter(br))].a["correlated"] = True
         env0 = dict(self.fr.env)
         counts0 = dict(self.counts)
         outs = set()
@@ -469,7 +483,19 @@ class Builder(ExprMixin):
             self.counts = dict(counts0)
             (bid,) = br
             armn = self.g.add("arm", {"branch": bid, "arm": arm}, self.g.nodes[bid].loc, self.g.nodes[bid].func, self.g.nodes[bid].stack, self.g.nodes[bid].stmt)
-            self.g.link(bid, armn.id, "T" if arm else "F")
+            if corr is None:
+                self.g.link(bid, armn.id, "T" if arm else "F")
+            else:
+                # the helper's return statements decide the arm: no path may combine `return False` with the True arm
+                srcs = [r for (r, tv) in corr if tv is arm]
+                if not srcs:
+                    continue
+                # ret -> (copy of the helper's leave node) -> arm: must-pass queries on `leave` still see the return
+                ln = self.g.nodes[corr_leave]
+                lc = self.g.add("leave", dict(ln.a), ln.loc, ln.func, ln.stack, ln.stmt)
+                for r in srcs:
+                    self.g.link(r, lc.id, "n")
+                self.g.link(lc.id, armn.id, "T" if arm else "F")
             self.refine(c, arm)
             o = self.block(body, {armn.id})
             if o:
@@ -479,6 +505,65 @@ class Builder(ExprMixin):
         self.merge_envs(env0, envs)
         self.merge_counts(counts0, cnts)
         return outs
+
+    def correlate(self, cond, preds):
+        """If the branch condition is decided by WHICH return statement of a just-inlined helper ran
+        (`if self._helper(...):`, `x = helper(); if x is None:`), return [(ret node id, truth)], else None.
+        Only used when nothing with an effect lies between the call's return and the branch."""
+        target = None
+        for v in cond.walk():
+            if v.kind == "phi" and v in self.ret_origin:
+                target = v
+                break
+        if target is None:
+            return None
+        leave_id, rets = self.ret_origin[target]
+        # the branch must directly follow the call (only joins in between)
+        cur = set(preds)
+        for _ in range(6):
+            if cur == {leave_id}:
+                break
+            nxt = set()
+            for p_ in cur:
+                n_ = self.g.nodes[p_]
+                if p_ == leave_id:
+                    nxt.add(p_)
+                elif n_.kind in ("join",) and len(self.g.pred[p_]) >= 1:
+                    nxt.update(x for (x, l) in self.g.pred[p_])
+                else:
+                    return None
+            cur = nxt
+        if cur != {leave_id}:
+            return None
+        out = []
+        for (rid, val) in rets:
+            tv = self.truth(self.subst(cond, target, val))
+            if tv is None:
+                return None
+            out.append((rid, tv))
+        if len({tv for _, tv in out}) < 2:
+            return None
+        return leave_id, out
+
+    def subst(self, v, old, new):
+        if v == old:
+            return new
+        if not isinstance(v, Val):
+            return v
+        changed = False
+        args = []
+        for a in v.args:
+            if isinstance(a, Val):
+                b = self.subst(a, old, new)
+                changed |= b is not a
+                args.append(b)
+            elif isinstance(a, tuple):
+                t_ = tuple(self.subst(x, old, new) if isinstance(x, Val) else x for x in a)
+                changed |= any(x is not y for x, y in zip(t_, a))
+                args.append(t_)
+            else:
+                args.append(a)
+        return Val(v.kind, *args) if changed else v
 
     def refine(self, cond, arm):
         """Record simple facts implied by taking a branch (None-ness of a local;
